@@ -68,6 +68,9 @@ pub fn candidates(prop: &str) -> Vec<Value> {
             }}}}
         }
         "C17" => {
+            for kind in ["empty_v"] {
+                v.push(json!({"call": "signcrypt", "group": "G1", "scheme": "Basic", "kind": kind}));
+            }
             for kind in ["sk_be_0x80", "sk_le_0x80", "sk_try_from_0x80", "ske_empty", "ske_be_empty", "ske_le_empty", "ts_future", "ts_max"] {
                 v.push(json!({"call": "no_panic", "group": "G1", "kind": kind}));
                 v.push(json!({"call": "no_panic", "group": "G2", "kind": kind}));
@@ -76,6 +79,11 @@ pub fn candidates(prop: &str) -> Vec<Value> {
         "C15" | "C16" => {
             for g in ["G1", "G2"] { for k in 0..5 { for kind in ["sk_bytes", "ske_vec", "ske_be", "ske_le", "pk_bytes", "zero_import"] {
                 v.push(json!({"call": "codec", "group": g, "key": k, "kind": kind}));
+            }}}
+        }
+        "C11" => {
+            for g in ["G1", "G2"] { for s in schemes() { for kind in ["round_trip", "flip_v", "truncate_v", "extend_v", "tamper_u", "tamper_w", "relabel", "wrong_key"] {
+                v.push(json!({"call": "signcrypt", "group": g, "scheme": scheme_name(s), "kind": kind}));
             }}}
         }
         "C10" => {
@@ -104,6 +112,7 @@ pub fn run(c: &Value) -> Option<String> {
         "aggregate" => by_group!(c, aggregate),
         "multi" => by_group!(c, multi),
         "pok" => by_group!(c, pok),
+        "signcrypt" => by_group!(c, signcrypt),
         "codec" => by_group!(c, codec),
         "no_panic" => by_group!(c, no_panic),
         _ => None,
@@ -412,4 +421,38 @@ fn codec<C: BlsSignatureImpl + PartialEq + Copy>(c: &Value, keys: &[SecretKey<C>
         "pk_bytes" => { let pk = sk.public_key(); let v: Vec<u8> = Vec::from(&pk); match PublicKey::<C>::try_from(v.as_slice()) { Ok(p) if p == pk => None, _ => Some("public key bytes do not round-trip".into()) } }
         _ => { if SecretKey::<C>::try_from(&[0u8; 32][..]).is_ok() { Some("zero key imported".into()) } else { None } }
     }
+}
+
+fn signcrypt<C: BlsSignatureImpl + PartialEq + Copy>(c: &Value, keys: &[SecretKey<C>]) -> Option<String> {
+    let s = scheme_of(&c["scheme"]);
+    let sk = &keys[3];
+    let pk = sk.public_key();
+    let kind = c["kind"].as_str().unwrap();
+    let lens: Vec<usize> = (0..41).chain(100..141).chain([16383usize, 16384, 16385, 65535]).collect();
+    if kind == "round_trip" {
+        for l in lens {
+            let m: Vec<u8> = (0..l).map(|i| (i * 31 + 7) as u8).collect();
+            let ct = pk.sign_crypt(s, &m);
+            if !bool::from(ct.is_valid()) { return Some(format!("fresh ciphertext (message length {}) reports invalid", l)); }
+            match Option::<Vec<u8>>::from(ct.decrypt(sk)) { Some(p) if p == m => {}, Some(_) => return Some(format!("decrypts to another message (length {})", l)), None => return Some(format!("does not decrypt (length {})", l)) }
+            match Option::<Vec<u8>>::from(sk.sign_decryption_key::<Vec<u8>>(&ct).decrypt(&ct)) { Some(p) if p == m => {}, _ => return Some(format!("decryption key path fails (length {})", l)) }
+        }
+        return None;
+    }
+    let m = b"attack at dawn, bring snacks".to_vec();
+    let ct = pk.sign_crypt(s, &m);
+    let gp = <C as Pairing>::PublicKey::generator();
+    let gs = <C as Pairing>::Signature::generator();
+    let mut t = ct.clone();
+    match kind {
+        "flip_v" => { for i in 0..t.v.len() { for b in 0..8 { let mut x = ct.clone(); x.v[i] ^= 1 << b; if bool::from(x.is_valid()) || bool::from(x.decrypt(sk).is_some()) { return Some(format!("bit {} of v[{}] flipped: still valid/decrypts", b, i)); } } } return None; }
+        "truncate_v" => { t.v.pop(); }
+        "extend_v" => { t.v.push(0); }
+        "tamper_u" => { t.u = t.u + gp; }
+        "tamper_w" => { t.w = t.w + gs; }
+        "relabel" => { for s2 in schemes() { if s2 != s { let mut x = ct.clone(); x.scheme = s2; if bool::from(x.is_valid()) || bool::from(x.decrypt(sk).is_some()) { return Some(format!("relabelled as {} still valid", scheme_name(s2))); } } } return None; }
+        "wrong_key" => { return match Option::<Vec<u8>>::from(ct.decrypt(&keys[4])) { Some(p) if p == m => Some("another secret key recovered the message".into()), _ => None }; }
+        _ => { t.v = vec![]; let _ = t.decrypt(sk); let _ = t.is_valid(); return None; }
+    }
+    if bool::from(t.is_valid()) || bool::from(t.decrypt(sk).is_some()) { Some(format!("{}: altered ciphertext still valid/decrypts", kind)) } else { None }
 }
